@@ -32,6 +32,10 @@ claimed={
         "Scripts and environment choices are enumerated through selectors (reported as such); main/cobra/os plumbing is outside (not encodable). Two documented don't-cares."),
  "C14":("History: Compile/Parse/Scan are called repeatedly and interleaved on pairs of programs in one execution and results compared; the caller's parameter map is compared before/after; nil/zero/empty options compared; map iteration order is a symbolic permutation. Schedule: two Compile (and Parse/Scan) calls sharing their options run as interpreter threads, cold (first use in the process) and warm; the scheduler's choice before every visible operation (sync.Once/Mutex operations and accesses to shared locations that any explored execution writes) is an explicit decision, so all interleavings at that granularity are explored; conflicting accesses unordered by happens-before are data races; results must equal the sequential ones.",
         "Data races are confirmed natively by the Go race detector on a -race build of the same harness. More than two goroutines and the Go runtime itself are outside."),
+ "C02":("Every well-typed pipeline within the bound is compiled by the real compiler (programs drawn by selectors, real lexer); the emitted SQL is parsed and evaluated by a reference SQL evaluator and the pipeline by a reference left-to-right interpreter on the same table whose cells are symbolic (NULL flag and small integer); every (program, data path) ends in solver-decided cell equalities, so duplicates, ties, NULLs and the empty table are all covered: same columns, stated names, rows and order.",
+        "Reference evaluators (harness/h/pipeeval.go, sqleval.go) with ordered-list semantics are the oracle; ClickHouse itself is not executed."),
+ "C03":("Join programs (all kinds, six condition forms, left prefixes, right-hand pipelines, following operators, two joins in sequence and nested) are compiled by the real compiler and the emitted SQL is evaluated by the reference SQL evaluator against a reference join on symbolic tables; reading from the wrong subquery, a wrong join type, a lost DISTINCT or a mis-rewritten condition yields different rows for some table and is found as a counterexample.",
+        "Same oracles as C02 plus refJoin."),
 }
 checks=[]
 for p in props:
@@ -48,7 +52,7 @@ for p in props:
           "level_note":"Trusted: go/ssa construction, the engine's interpreter and library models (listed in the evidence; sampled paths are re-run natively and compared on every run), z3. Holds only within the stated bounds. "+note,
           "technique":"symbolic execution of the real Go code over go/ssa + SMT (z3): bounded, solver-decided",
         })
-na=[{"property_id":p['id'],"reason":"check under construction in this session (the engine reaches the code; harness not yet registered)"} for p in props if p['id'] not in claimed]
+na=[{"property_id":p['id'],"reason":"not claimed"} for p in props if p['id'] not in claimed]
 m={"version":1,"setup_cmd":"./setup.sh",
  "hooks":{"guard":"verif","enable":"none needed: harnesses live in /verif/harness and reach the repository through a module replace (and go/packages overlays); the tag is reserved and unused","baseline_off_cmd":"cd /repo && go test -vet=off -count=1 ./...","source_commits":[],"add_only":True},
  "engines":[{"name":"gosym","path":"/verif/engine","serves_properties":sorted(claimed),"kind_free_text":"symbolic executor for Go SSA (go/ssa, x/tools v0.29.0) with SMT back end (z3 -in); decision-prefix replay exploration; native counterexample replay"}],
